@@ -486,9 +486,10 @@ def checkMotionLV (o : Orc σ κ) (segs : σ → σ → Nat) (interp : σ → σ
     if a.1 then ⟨true, s2, s⟩ else ⟨false, interp s1 s2 (nd - 1) nd, s⟩
   else r
 
-/-- ObstacleBased: find an invalid `state`, then a valid `temp` (always `sampleUniform`), then keep the last valid
-state of the motion temp -> state; returns `valid` of the second loop whatever checkMotion says -/
-def obstacleV (o : Orc σ κ) (segs : σ → σ → Nat) (interp : σ → σ → Nat → Nat → σ) (c : Call) (n : Nat)
+/-- ObstacleBased BEFORE fix 96c4da7bb (kept for the witness `obstacleBased_old_returns_unvalidated`): find an invalid
+`state`, then a valid `temp` (always `sampleUniform`), then keep `lastValid` of the motion temp -> state whatever it is;
+returns `valid` of the second loop whatever checkMotion says -/
+def obstacleVOld (o : Orc σ κ) (segs : σ → σ → Nat) (interp : σ → σ → Nat → Nat → σ) (c : Call) (n : Nat)
     (s : OS σ κ) : VRes σ κ :=
   let r1 := findInvalid o c n s
   if r1.ok then ⟨false, r1.st, r1.os⟩
@@ -497,6 +498,42 @@ def obstacleV (o : Orc σ κ) (segs : σ → σ → Nat) (interp : σ → σ →
     if r2.ok then
       let r3 := checkMotionLV o segs interp r2.st r1.st r2.os
       ⟨true, r3.st, r3.os⟩
+    else ⟨false, r1.st, r2.os⟩
+
+/-- the `for` loop of checkMotion(s1, s2, lastValid) again, now also returning the numerator of `lastValid.second`
+(`(double)(j - 1) / (double)nd` at the failing index; `0` = the caller's initial `fail.second = 0.0` if untouched) -/
+def motionLoopF (o : Orc σ κ) (interp : σ → σ → Nat → Nat → σ) (s1 s2 : σ) (nd : Nat) :
+    Nat → Nat → OS σ κ → VRes σ κ × Int
+  | 0, _, s => (⟨true, s2, s⟩, 0)
+  | k + 1, j, s =>
+    let test := interp s1 s2 j nd
+    let a := ask o test s
+    if a.1.1 then motionLoopF o interp s1 s2 nd k (j + 1) a.2
+    else (⟨false, interp s1 s2 (j - 1) nd, a.2⟩, (j : Int) - 1)
+
+/-- `checkMotion(s1, s2, lastValid)` with `lastValid = (state, 0.0)`: what `state` holds afterwards and the numerator of
+`lastValid.second` (`(nd - 1)` as an `int`, so `-1` for `nd = 0`, where the code divides by zero and interpolates at
+`-inf`; the model's interpolation index is truncated at 0 there, which is why the theorem assumes `nd ≥ 1`) -/
+def checkMotionF (o : Orc σ κ) (segs : σ → σ → Nat) (interp : σ → σ → Nat → Nat → σ) (s1 s2 : σ)
+    (s : OS σ κ) : VRes σ κ × Int :=
+  let nd := segs s1 s2
+  let r := motionLoopF o interp s1 s2 nd (nd - 1) 1 s
+  if r.1.ok then
+    let a := ask o s2 r.1.os
+    if a.1.1 then (⟨true, s2, a.2⟩, 0) else (⟨false, interp s1 s2 (nd - 1) nd, a.2⟩, (nd : Int) - 1)
+  else r
+
+/-- ObstacleBased as fixed by 96c4da7bb: after `checkMotion(temp, state, fail)`,
+`if (fail.second == 0.0) copyState(state, temp);` (the zero test is on the numerator: `0/nd == 0.0` for `nd ≥ 1`) -/
+def obstacleV (o : Orc σ κ) (segs : σ → σ → Nat) (interp : σ → σ → Nat → Nat → σ) (c : Call) (n : Nat)
+    (s : OS σ κ) : VRes σ κ :=
+  let r1 := findInvalid o c n s
+  if r1.ok then ⟨false, r1.st, r1.os⟩
+  else
+    let r2 := uniformV o .uniform n r1.os
+    if r2.ok then
+      let r3 := checkMotionF o segs interp r2.st r1.st r2.os
+      ⟨true, if r3.2 = 0 then r2.st else r3.1.st, r3.1.os⟩
     else ⟨false, r1.st, r2.os⟩
 
 /-- BridgeTest: `mid e x` = `interpolate(endpoint, state, 0.5, state)` -/
